@@ -166,3 +166,27 @@ Proof.
       unfold sub32. replace (l_start (last (table line0 pr) line0) + bc <=? len pr + 1 + bc) with true by (symmetry; apply N.leb_le; lia).
       f_equal. lia.
 Qed.
+
+(** the last token of a buffer (EOF) ends where it starts, whatever the buffer *)
+Lemma last_token_end d b i t :
+  nthN (b_toks b) i = Some t -> i + 1 = n_toks b ->
+  get_token_end_line d b i = get_token_start_line d b i /\
+  get_token_end_column d b i = get_token_start_column d b i.
+Proof.
+  intros Hi Hl.
+  assert (Hidx : forall A (k : ares A), idx_assert d b i k = k).
+  { intros A k. unfold idx_assert. replace (i <? n_toks b) with true by (symmetry; apply N.ltb_lt; lia). rewrite andb_false_r. reflexivity. }
+  assert (Hsl : get_token_start_line d b i = AOk (t_line t + 1)).
+  { unfold get_token_start_line. rewrite Hidx. unfold get_tok. rewrite Hi. reflexivity. }
+  assert (Hel : get_token_end_line d b i = get_token_start_line d b i).
+  { unfold get_token_end_line. rewrite Hidx.
+    replace (n_toks b =? 0) with false by (symmetry; apply N.eqb_neq; lia).
+    replace (i =? n_toks b - 1) with true by (symmetry; apply N.eqb_eq; lia). reflexivity. }
+  split; [exact Hel|].
+  unfold get_token_end_column, get_token_start_column. rewrite !Hidx. rewrite Hel, Hsl.
+  unfold get_token_end. rewrite Hidx.
+  replace (i + 1 <? n_toks b) with false by (symmetry; apply N.ltb_ge; lia).
+  unfold get_tok. rewrite Hi. cbn [abind].
+  unfold sub32 at 1. replace (1 <=? t_line t + 1) with true by (symmetry; apply N.leb_le; lia). cbn [abind].
+  replace (t_line t + 1 - 1) with (t_line t) by lia. reflexivity.
+Qed.
